@@ -263,16 +263,20 @@ def gen_graph(rng, knobs=None):
         units.append(u)
     if knobs.get("program", rng.random() < 0.6):
         units.append(gen_program(rng, units, forms, knobs))
+    if rng.random() < knobs.get("p_blockdata", 0.0):
+        units.append(gen_blockdata(rng, units))
     if rng.random() < knobs.get("p_special", 0.0):
         units = specialise(rng, units)
         if rng.random() < 0.3:
             # a project module named like an intrinsic module next to `use, intrinsic :: <that name>`
             # elsewhere (Fortran 2018 14.2.2: that statement designates the intrinsic module)
-            names = [u["name"].lower() for u in units if u["unit"] == "module" and u["name"].lower() in INTRINSIC_NAMES]
-            users = [u for u in units if u["name"].lower() not in names]
-            if names and users:
-                rng.choice(users)["uses"].append({"target": rng.choice(names), "only": None, "renames": [],
-                                                  "prefix": "intrinsic"})
+            # (in a unit that comes later in the dependency order: FORD matches the statement with the
+            # project's module, so an earlier unit would close a cycle)
+            idx = [i for i, u in enumerate(units) if u["unit"] == "module" and u["name"].lower() in INTRINSIC_NAMES]
+            if idx and idx[0] + 1 < len(units):
+                i = rng.choice(idx[:1])
+                rng.choice(units[i + 1:])["uses"].append({"target": units[i]["name"].lower(), "only": None,
+                                                          "renames": [], "prefix": "intrinsic"})
     return units
 
 
@@ -425,6 +429,29 @@ def nested_nodes(u):
     return out
 
 
+def gen_blockdata(rng, units):
+    """a block data unit (FortranBlockData.correlate has a USE loop of its own): one USE statement per used
+    module, any spelling incl. the module natures, and variables of use-associated types"""
+    mods = [u for u in units if u["unit"] == "module"]
+    b = {"name": "bdat", "unit": "blockdata", "default": "public", "explicit_default": False,
+         "decls": [], "access": [], "uses": [], "calls": []}
+    counter = [0]
+    for m in rng.sample(mods, rng.randint(1, min(2, len(mods)))):
+        b["uses"] += gen_use(rng, units, m["name"], rng.choice(["plain", "only", "only_rename", "prefix"]), "y", counter, {})
+    if rng.random() < 0.6:
+        b["uses"].insert(rng.randint(0, len(b["uses"])),
+                         {"target": rng.choice(["iso_fortran_env", "iso_c_binding"]), "only": None, "renames": [],
+                          "prefix": rng.choice(["intrinsic", "intrinsic", ""])})
+    i = 0
+    for n, kind in sorted(guess_imports(units, b).items()):
+        if kind == "type" and rng.random() < 0.7:
+            i += 1
+            b["decls"].append({"name": f"vy{i}", "kind": "var", "perm": "public", "how": "default",
+                               "ref": {"what": "type", "id": n}, "function": False})
+    b["decls"].append({"name": "vy0", "kind": "var", "perm": "public", "how": "default", "ref": None, "function": False})
+    return b
+
+
 def gen_program(rng, units, forms, knobs):
     mods = [u for u in units if u["unit"] == "module"]
     p = {"name": "main", "unit": "program", "default": "public", "explicit_default": False,
@@ -484,7 +511,7 @@ def render_use(us):
 
 def render_unit(u):
     L = []
-    kw = u["unit"]
+    kw = {"blockdata": "block data"}.get(u["unit"], u["unit"])
     L.append(f"{kw} {u['name']}")
     for us in u["uses"]:
         L.append("  " + render_use(us))
@@ -611,8 +638,9 @@ def cpairs(l):
 
 def coq_uses(uses):
     return "[" + "; ".join(
-        "U {} {} {}".format(cs(x["target"]), "None" if x["only"] is None else f"(Some {cpairs(x['only'])})",
-                            cpairs(x["renames"])) for x in uses) + "]"
+        "{} {} {} {}".format("Ui" if x["prefix"] == "intrinsic" else "U", cs(x["target"]),
+                             "None" if x["only"] is None else f"(Some {cpairs(x['only'])})",
+                             cpairs(x["renames"])) for x in uses) + "]"
 
 
 def coq_module(u):
@@ -676,8 +704,16 @@ def coq_case(units, groups):
             runs += [f"RX {coq_strs(files)}" for files, _ in members]
         else:
             lets.append(f"let o{k} := {coq_obs(obs)} in")
-            runs += [f"R {coq_strs(files)} {coq_strs(order)} o{k}" for files, order in members]
+            lets.append(f"let b{k} := {coq_binds(obs.get('binds', []))} in")
+            runs += [f"Rb {coq_strs(files)} {coq_strs(order)} ext b{k} o{k}" for files, order in members]
+    lets.insert(0, f"let ext := {coq_strs(EXTERNAL_NAMES)} in")
     return "(%s\n  (%s,\n  [%s]))" % ("\n  ".join(lets), coq_graph(units), ";\n   ".join(runs))
+
+
+def coq_binds(binds):
+    return "[" + "; ".join("Bn {} {} {} {} {} {}".format(cs(b["unit"]), coq_strs(b["path"]), cs(b["target"]),
+                                                          "true" if b["intr"] else "false", b["kind"], cs(b["name"]))
+                           for b in binds) + "]"
 
 
 def permutations_of(names, limit=None):
